@@ -95,6 +95,7 @@ type item struct {
 }
 
 func run(c *vf.Ctx) {
+	c.RaceCompanion("the s2k functions", "golang.org/x/crypto/openpgp/s2k.")
 	c.Rule("full grid type{simple,salted,iterated} x 7 hashes x all 256 coded counts x keyLen{1,hLen,hLen+1,2hLen+1,64} x passLen{0,1,8,100} " +
 		"for coded counts below the tier's full-grid limit (quick 128, thorough 224), above it every coded count with a reduced (keyLen,passLen) set " +
 		"(rotating with the count octet; a multi-context key for every count octet below 192, every fourth one in 192..223 and one or two per hash in 224..255, which hash up to 65 MB per context: one key size, one passphrase); " +
